@@ -14,7 +14,7 @@ import time
 
 RUNS = {
     "quick": {"fuzz_scripts": 150_000, "fuzz_block": 40_000, "fuzz_xorseek": 60_000},
-    "thorough": {"fuzz_scripts": 20_000_000, "fuzz_block": 2_000_000, "fuzz_xorseek": 600_000},
+    "thorough": {"fuzz_scripts": 20_000_000, "fuzz_block": 1_000_000, "fuzz_xorseek": 600_000},
 }
 MAXLEN = {"fuzz_scripts": 700, "fuzz_block": 4096, "fuzz_xorseek": 512}
 
